@@ -25,6 +25,22 @@ theorem buf_inv_bounds (ops : List Op) (c0 c1 : Nat) (m0 m1 : Mode) (fill : UInt
 /-- The invariant is inductive: one operation from any state satisfying it. -/
 theorem buf_inv_step (s : St) (op : Op) (h : s.Bounds) : (step s op).1.Bounds := step_bounds s op h
 
+/-- Alignment clause of buf_inv (8 ∣ committed, and 8 ∣ written when no builder is open) — PARTIAL:
+    it holds initially and every operation of the Buffer class itself (commit, rollback, clear,
+    add_buffer, push_back, swap, move, set_removed, purge_removed, get_last_nested) preserves it, for
+    both buffers, in every grow mode (including a throwing add_buffer/push_back in mode `no`).
+    MISSING for the full clause: "a completed top-level builder leaves `written` aligned", which
+    needs the byte-level invariant that every open builder's size field is congruent mod 8 to the
+    extent actually written (add_padding pads by the size FIELD); that part is covered by the
+    `buf-inv` and `item-walk` monitors of the check on every op of every run, not by a theorem. -/
+theorem buf_inv_aligned_partial (s : St) (op : Op) (hop : BufferOp op = true) (he : s.stack = [])
+    (hs : s.Bounds) (h0 : s.b0.Aligned) (h1 : s.b1.Aligned) :
+    (step s op).1.b0.Aligned ∧ (step s op).1.b1.Aligned := step_aligned_bufferop s op hop he hs h0 h1
+
+theorem buf_inv_aligned_init (c0 c1 : Nat) (m0 m1 : Mode) (fill : UInt8) (fix : Bool) :
+    (St.init c0 m0 c1 m1 fill fix).b0.Aligned ∧ (St.init c0 m0 c1 m1 fill fix).b1.Aligned :=
+  ⟨aligned_mk _ _ _, aligned_mk _ _ _⟩
+
 /-! ### capacity_independent — the central theorem -/
 
 /-- Same script (builder calls, commit, rollback, add_buffer, push_back, move), ANY two initial
